@@ -326,6 +326,29 @@ class LongLines(LinesPart):
         return lines
 
 
+class Columns(LinesPart):
+    name = "tokens_at_every_column_of_long_lines"
+    desc = "an address / near-miss token straddling every column 2^k (k=8..16) of a long line, at every internal split position for 4096 and 8192"
+
+    def cases(self):
+        return [{"P": 1 << k} for k in range(8, 17)] + [{"P": p} for p in (1000, 10000, 8191, 8193)]
+
+    def gen(self, case):
+        P = case["P"]
+        toks = ["11.22.33.44", "2001:db8::1234", "1.2.3.4.5", "1.2.3.456", "::ffff:11.22.33.44", "fe80::1%eth0"]
+        lines = []
+        for t in toks:
+            shifts = range(0, len(t) + 1) if P in (4096, 8192) or self.tier == "thorough" else (1, len(t) // 2, len(t) - 1)
+            for sh in shifts:
+                n = P - sh
+                if n < 1:
+                    continue
+                pad = ("lorem ipsum dolor " * (n // 18 + 1))[: n - 1] + " "
+                lines.append(pad + t + " trailing words")
+                lines.append(pad + t)
+        return lines
+
+
 def parts(tier, seed):
     return [V4Tokens(tier, seed), V6Tokens(tier, seed), V6Tails(tier, seed), Contexts(tier, seed),
-            Boundary(tier, seed), LongLines(tier, seed)]
+            Boundary(tier, seed), LongLines(tier, seed), Columns(tier, seed)]
